@@ -559,6 +559,21 @@ class NodeCountMapper(CachedWalkMapper[[]]):
         if not isinstance(expr, DictOfNamedArrays):
             self.expr_type_counts[type(expr)] += 1
 
+    @override
+    def map_function_definition(self, expr: FunctionDefinition) -> None:
+        if not self.visit(expr):
+            return
+
+        # Each function is traversed once (by whichever mapper encounters it
+        # first): its counts must not be lost with that mapper.
+        new_mapper = self.clone_for_callee(expr)
+        for subexpr in expr.returns.values():
+            new_mapper(subexpr)
+        for node_type, count in new_mapper.expr_type_counts.items():
+            self.expr_type_counts[node_type] += count
+
+        self.post_visit(expr)
+
 
 def get_node_type_counts(
         outputs: ArrayOrNames,
@@ -634,6 +649,20 @@ class NodeMultiplicityMapper(CachedWalkMapper[[]]):
     def post_visit(self, expr: ArrayOrNames | FunctionDefinition) -> None:
         if not isinstance(expr, DictOfNamedArrays):
             self.expr_multiplicity_counts[expr] += 1
+
+    @override
+    def map_function_definition(self, expr: FunctionDefinition) -> None:
+        if not self.visit(expr):
+            return
+
+        # See NodeCountMapper.map_function_definition.
+        new_mapper = self.clone_for_callee(expr)
+        for subexpr in expr.returns.values():
+            new_mapper(subexpr)
+        for node, count in new_mapper.expr_multiplicity_counts.items():
+            self.expr_multiplicity_counts[node] += count
+
+        self.post_visit(expr)
 
 
 def get_node_multiplicities(
